@@ -471,8 +471,8 @@ int main(int argc, char** argv) {
     const bool T = ctx.thorough();
     // main pass: full bounds, direct execution (only the rejection cases are forked).
     // asan pass : every case in a forked child of the ASan+UBSan build; reduced numeric bounds, full rejection set.
-    const int N = asan_pass ? (T ? 256 : 64) : (T ? 2048 : 256);
-    const int NREJ = T ? 2048 : 256;
+    const int N = asan_pass ? (T ? 256 : 64) : (T ? 8192 : 256);
+    const int NREJ = T ? 8192 : 256;
     const int NIMP = asan_pass ? 32 : (T ? 256 : 64);
     const int NDENSE = asan_pass ? 64 : (T ? 1024 : 256);
     const bool boxed = asan_pass;
@@ -480,9 +480,18 @@ int main(int argc, char** argv) {
 
     Len L;
     std::vector<cld> x, R;
+    // every length 1..N plus (main pass, both tiers) a handful of big lengths above 4096 and above 65536
+    std::vector<int> lens_all, lens_even;
+    for (int n = 1; n <= N; ++n) lens_all.push_back(n);
+    if (!asan_pass)
+        for (int n : {4098, 4099, 4100, 5000, 8192, 16384, 46342, 65536, 65537, 65538, 70000, 99991, 100000, 131072})
+            if (n > N) lens_all.push_back(n);
+    for (int n : lens_all)
+        if (n % 2 == 0) lens_even.push_back(n);
+    const std::vector<int> big_odd = {4097, 4099, 46341, 65535, 65537, 70001, 131071};
 
     // ================================================================ ifft / IfftPlan
-    for (int n = 1; n <= N; ++n) {
+    for (int n : lens_all) {
         const std::vector<int> idx = index_set(n, NIMP);
         std::string wk = "ifft: rel l2 err/(n eps)";
         auto apis = [&](Sink& s, const IfftPlan& plan, const std::vector<cld>& Xin, const std::vector<cld>& xref, const std::string& letter) {
@@ -496,8 +505,11 @@ int main(int argc, char** argv) {
             if (ok && bitsame(y3, y1)) s.tick();
             else judge(s, "IfftPlan::operator()", "ifft-value", wk, y3, xref, n, letter);
         };
+        // the blocks of one length are enumerated in an order rotated with n (balances the shards)
+        for (int t = 0; t < 3; ++t) {
+        const int chk = (t + n) % 3;
         // ---- against the definition: transform columns <-> impulses, closed-form spectra
-        if (ctx.take("ifft.definition", P().kv("n", n))) {
+        if (chk == 0 && ctx.take("ifft.definition", P().kv("n", n))) {
             L.init(n);
             run_case(ctx, boxed, "ifft", [&](Sink& s) {
                 s.note(pfx + "ifft plan: " + kind_c(n));
@@ -540,7 +552,7 @@ int main(int argc, char** argv) {
             });
         }
         // ---- dense spectrum against the O(n^2) inverse DFT
-        if (n <= NDENSE && ctx.take("ifft.dense", P().kv("n", n))) {
+        if (chk == 1 && n <= NDENSE && ctx.take("ifft.dense", P().kv("n", n))) {
             L.init(n);
             run_case(ctx, boxed, "ifft", [&](Sink& s) {
                 if (n >= 2) s.nontrivial();
@@ -553,7 +565,7 @@ int main(int argc, char** argv) {
             });
         }
         // ---- round trip through the library's forward transform
-        if (ctx.take("ifft.roundtrip", P().kv("n", n))) {
+        if (chk == 2 && ctx.take("ifft.roundtrip", P().kv("n", n))) {
             L.init(n);
             run_case(ctx, boxed, "ifft", [&](Sink& s) {
                 if (n >= 2) s.nontrivial();
@@ -601,12 +613,14 @@ int main(int argc, char** argv) {
                 }
             });
         }
+        }   // rotation loop
     }
 
     // ================================================================ irfft / IfftPlanR, even n
-    for (int n = 2; n <= N; n += 2) {
+    for (int n : lens_even) {
         const std::vector<int> idx = index_set(n, NIMP);
-        for (int form = 0; form < 2; ++form) {
+        for (int t = 0; t < 6; ++t) {   // (form, block) enumerated in an order rotated with n/2 (balances the shards)
+            const int u = (t + n / 2) % 6, form = u / 3, chk = u % 3;
             const char* fname = form == 0 ? "all-n-bins" : "first-n/2+1-bins";
             const int nb = form == 0 ? n : n / 2 + 1;
             const std::string wk = fmt("irfft n%%4==%d: rel l2 err/(n eps)", n % 4);   // the two residues take different twiddle-table paths
@@ -634,7 +648,7 @@ int main(int argc, char** argv) {
                 s.note(pfx + fmt("irfft n%%4==%d, half-length plan: ", n % 4) + kind_c(n / 2));
                 s.nontrivial();
             };
-            if (ctx.take("irfft.definition", P().kv("n", n).kv("form", fname))) {
+            if (chk == 0 && ctx.take("irfft.definition", P().kv("n", n).kv("form", fname))) {
                 L.init(n);
                 run_case(ctx, boxed, "irfft", [&](Sink& s) {
                     head(s);
@@ -655,7 +669,7 @@ int main(int argc, char** argv) {
                     }
                 });
             }
-            if (n <= NDENSE && ctx.take("irfft.dense", P().kv("n", n).kv("form", fname))) {
+            if (chk == 1 && n <= NDENSE && ctx.take("irfft.dense", P().kv("n", n).kv("form", fname))) {
                 L.init(n);
                 run_case(ctx, boxed, "irfft", [&](Sink& s) {
                     head(s);
@@ -666,7 +680,7 @@ int main(int argc, char** argv) {
                     apis(s, plan, R, x, "dense", "irfft-value", wk);
                 });
             }
-            if (ctx.take("irfft.roundtrip", P().kv("n", n).kv("form", fname))) {
+            if (chk == 2 && ctx.take("irfft.roundtrip", P().kv("n", n).kv("form", fname))) {
                 L.init(n);
                 run_case(ctx, boxed, "irfft", [&](Sink& s) {
                     head(s);
@@ -704,7 +718,7 @@ int main(int argc, char** argv) {
     // satisfy the value oracle.  Rel pass: in-process (a wrong value is not a crash); ASan pass: forked.
     {
         Len La, Lb, Lc;
-        for (int n = 2; n <= N; n += 2) {
+        for (int n : lens_even) {
             if (!ctx.take("irfft.after_reject", P().kv("n", n))) continue;
             const int m = n + 2, l = n - 2;
             La.init(n);
@@ -855,6 +869,41 @@ int main(int argc, char** argv) {
         }
         if (abn >= 3) ctx.cap("irfft.reject: block abandoned after 3 abnormal outcomes");
     }
+    // big odd lengths (above 4096, above 46340 where n*n overflows int, above 65536), one forked call each
+    for (int n : big_odd) {
+        if (asan_pass && n > 70001) continue;
+        if (!ctx.take("irfft.reject", P().kv("lo", n).kv("hi", n + 1).kv("big", 1))) continue;
+        forked(ctx, "irfft", 120.0, [&](ChildCtx& c) {
+            fb::shm()->prog[0] = n;
+            for (int form = 0; form < 2; ++form) {
+                const int nb = form == 0 ? n : n / 2 + 1;
+                arr_cmplx X(nb);
+                for (int k = 0; k < nb; ++k) X[k] = cmplx_t(1.0 + (k % 97), 0.0);
+                for (int api = 0; api < 2; ++api) {
+                    fb::label(api == 0 ? "irfft(X,n) big odd n" : "IfftPlanR(n) big odd n");
+                    bool threw = false;
+                    try {
+                        if (api == 0) {
+                            arr_real y = irfft(X, n);
+                        } else {
+                            IfftPlanR plan(n);
+                            arr_real y = plan.solve(X);
+                        }
+                    } catch (const std::exception&) {
+                        threw = true;
+                    } catch (...) {
+                        threw = true;
+                    }
+                    ++c.evals;
+                    ++c.nontriv;
+                    if (!threw)
+                        c.fail(api == 0 ? "irfft(X,n)" : "IfftPlanR", fmt("odd n=%d accepted", n), "a C++ exception",
+                               P().kv("n", n).kv("form", form == 0 ? "all-n-bins" : "first-n/2+1-bins").kv("kind", "odd-not-rejected"));
+                }
+            }
+            c.note(pfx + "irfft big odd n rejected-or-reported", 1);
+        });
+    }
     // wrong bin counts: the statement is silent, so only an abnormal outcome (crash, sanitizer report, hang) is a failure;
     // "returned a value" is recorded in the histogram
     {
@@ -909,16 +958,25 @@ int main(int argc, char** argv) {
         struct Grid {
             int nfft;
             bool sparse;   // only periodic hann/blackman, overlap nfft/2 and 3nfft/4, onesided, one unaligned length
+            int jsp;       // sparse: number of extra hops of the single signal length nfft + jsp*hop + hop-1
         };
         std::vector<Grid> grids;
-        for (int v : {8, 12, 16, 20, 24, 32, 48, 64}) grids.push_back({v, false});
+        for (int v : {8, 12, 16, 20, 24, 32, 48, 64}) grids.push_back({v, false, 0});
         if (T) {
-            for (int v : {128, 256, 512, 1024}) grids.push_back({v, false});
+            for (int v : {96, 128, 192, 256, 384, 512, 1024, 2048}) grids.push_back({v, false, 0});
+            grids.push_back({4096, true, 3});
+            grids.push_back({8192, true, 3});
         } else {
-            grids.push_back({512, true});
-            grids.push_back({1024, true});
+            grids.push_back({512, true, 3});
+            grids.push_back({1024, true, 3});
+            grids.push_back({4096, true, 3});
         }
-        if (asan_pass) grids = {{8, false}, {12, false}, {16, false}};
+        if (asan_pass) {
+            grids = {{8, false, 0}, {12, false, 0}, {16, false, 0}};
+        } else {
+            grids.push_back({256, true, 600});    // signal longer than 65536 samples (77183 / 38783)
+            grids.push_back({4096, true, 520});   // 1.07e6 / 5.4e5 samples: nx * nfft/2 exceeds 2^31
+        }
         const StftRange ranges[3] = {StftRange::Onesided, StftRange::Twosided, StftRange::Centered};
         const char* rname[3] = {"onesided", "twosided", "centered"};
         const OverlapMethod methods[2] = {OverlapMethod::Ola, OverlapMethod::Wola};
@@ -950,10 +1008,12 @@ int main(int argc, char** argv) {
                     if (hop - 1 > 1) rs.push_back(hop - 1);
                     for (int ir = 0; ir < 3; ++ir)
                         for (int im = 0; im < 2; ++im)
-                            for (int j : {0, 1, 3})
+                            for (int j : {0, 1, 3, G.jsp > 3 ? G.jsp : -1})
                                 for (int rr : rs)
                                     for (int chk = 0; chk < 2; ++chk) {
-                                        if (G.sparse && (ir != 0 || j != 3 || rr != hop - 1)) continue;
+                                        if (j < 0) continue;
+                                        if (!G.sparse && j > 3) continue;
+                                        if (G.sparse && (ir != 0 || j != G.jsp || rr != hop - 1)) continue;
                                         const char* check = chk == 0 ? "istft.finite" : "istft.roundtrip";
                                         if (!ctx.take(check, P().kv("nfft", nfft).kv("win", W.name).kv("overlap", ov).kv("range", rname[ir]).kv("method", mname[im]).kv("j", j).kv("r", rr)))
                                             continue;
@@ -1077,10 +1137,9 @@ int main(int argc, char** argv) {
         struct HC {
             int nfft, ov;
         };
-        std::vector<HC> cfgs = {{16, 8}, {16, 12}, {64, 48}, {256, 192}, {256, 128}};
+        std::vector<HC> cfgs = {{16, 8}, {16, 12}, {64, 48}, {256, 192}, {256, 128}, {4096, 2048}};
         if (T) {
-            cfgs.push_back({512, 256});
-            cfgs.push_back({1024, 768});
+            for (HC e : {HC{512, 256}, HC{1024, 768}, HC{24, 18}, HC{96, 72}, HC{128, 96}, HC{128, 64}, HC{1024, 512}, HC{2048, 1536}, HC{4096, 3072}, HC{8192, 4096}}) cfgs.push_back(e);
         }
         if (asan_pass) cfgs = {{16, 8}, {16, 12}, {64, 48}};
         const char* wnames[5] = {"hann", "hamming", "blackman", "rect", "2*hann"};
